@@ -105,7 +105,19 @@ def verify(d):
     with Worktree(os.path.join(d, "patch.diff")) as w:
         rc, out = sh(["go", "build", "./..."], cwd=w.dir)
         res["build_with"] = rc
-        rc, out = sh(["go", "test", "-vet=off", "-count=1", "./..."], cwd=w.dir, timeout=1800)
+        # the repository's socket tests bind fixed ports (12345, 65001): one suite run at a time, and a run
+        # that lost the port to some other process is repeated
+        lock = open("/tmp/.seedtest-suite.lock", "w")
+        fcntl.flock(lock, fcntl.LOCK_EX)
+        try:
+            for _ in range(4):
+                rc, out = sh(["go", "test", "-vet=off", "-count=1", "./..."], cwd=w.dir, timeout=1800)
+                if rc == 0 or "address already in use" not in out:
+                    break
+                time.sleep(3)
+        finally:
+            fcntl.flock(lock, fcntl.LOCK_UN)
+            lock.close()
         res["suite_with"] = rc
         if rc != 0:
             res["suite_out"] = out[-1500:]
@@ -156,9 +168,9 @@ def main():
     ap = argparse.ArgumentParser()
     sp = ap.add_subparsers(dest="cmd")
     a1 = sp.add_parser("verify")
-    a1.add_argument("dir")
+    a1.add_argument("dir", type=os.path.abspath)
     a2 = sp.add_parser("run")
-    a2.add_argument("dir")
+    a2.add_argument("dir", type=os.path.abspath)
     a2.add_argument("--checks", default=None)
     a2.add_argument("--tier", default="quick")
     a2.add_argument("--keep", default=None)
